@@ -176,12 +176,12 @@ def run_layer(layer, case, t, grads=False):
     layer.zero_grad()
     try:
         with softmax_tap() as seen:
-            out, w = layer(q, k, v, key_padding_mask=kp, need_weights=True, attn_mask=am)
+            out, w = layer(q, k, v, key_padding_mask=kp, need_weights=bool(case.get("nw", True)), attn_mask=am)
     except Exception as e:  # noqa: BLE001 – every implementation error is data here
         return {"status": map_exc(e), "message": f"{type(e).__name__}: {e}"[:300]}
-    r = {"status": "ok", "out": out.detach(), "w": w.detach(), "scores": seen[-1] if seen else None}
+    r = {"status": "ok", "out": out.detach(), "w": None if w is None else w.detach(), "scores": seen[-1] if seen else None}
     if grads:
-        loss = (out * t["c_out"]).sum() + (w * t["c_w"]).sum()
+        loss = (out * t["c_out"]).sum() + ((w * t["c_w"]).sum() if w is not None else 0.0)
         loss.backward()
         r["gin"] = {"query": q.grad, "key": k.grad, "value": v.grad}
     return r
